@@ -1,6 +1,6 @@
 (** Facts about the in-flight table specification (Spec/AckSpec.v). *)
-From Wasp Require Import Model.Base Spec.AckSpec.
-From stdpp Require Import list.
+From Wasp Require Import Model.Base Spec.AckSpec Proofs.StableInsert.
+From stdpp Require Import list sorting.
 From Coq Require Import ZArith Lia.
 Open Scope Z_scope.
 
@@ -15,4 +15,316 @@ Lemma round_mono d1 d2 : d1 ≤ d2 → round_s d1 ≤ round_s d2.
 Proof.
   intros H. unfold round_s. apply Z.mul_le_mono_nonneg_r; [unfold sec; lia|].
   apply Z.div_le_mono; [unfold sec; lia|lia].
+Qed.
+
+(** ** keys *)
+Lemma key_eqb_eq' a b : key_eqb a b = true ↔ a = b.
+Proof.
+  destruct a as [a1 a2], b as [b1 b2]. unfold key_eqb. cbn [fst snd].
+  rewrite andb_true_iff, String.eqb_eq, Z.eqb_eq. split; [intros [-> ->]; done|intros [= -> ->]; done].
+Qed.
+Lemma key_eqb_neq' a b : key_eqb a b = false ↔ a ≠ b.
+Proof. rewrite <- key_eqb_eq'. destruct (key_eqb a b); split; congruence. Qed.
+
+Definition keys (s : sstate) : list key := map ekey s.
+Definition regs (s : sstate) : list N := map ereg s.
+
+Lemma sfind_app k s1 s2 : sfind k (s1 ++ s2) = match sfind k s1 with Some e => Some e | None => sfind k s2 end.
+Proof. induction s1 as [|x s1 IH]; cbn; [done|]. destruct (key_eqb (ekey x) k); [done|exact IH]. Qed.
+Lemma sfind_In k s e : sfind k s = Some e → e ∈ s ∧ ekey e = k.
+Proof.
+  induction s as [|x s IH]; cbn; [done|]. destruct (key_eqb (ekey x) k) eqn:Hk.
+  - intros [= ->]. apply key_eqb_eq' in Hk. split; [left|done].
+  - intros H. destruct (IH H). split; [by right|done].
+Qed.
+Lemma sfind_notin k s : sfind k s = None ↔ k ∉ keys s.
+Proof.
+  unfold keys. induction s as [|x s IH]; cbn [sfind map]; [split; [intros _ H; by apply elem_of_nil in H|done]|].
+  destruct (key_eqb (ekey x) k) eqn:Hk.
+  - apply key_eqb_eq' in Hk. split; [done|]. intros H. exfalso. apply H. rewrite Hk. left.
+  - apply key_eqb_neq' in Hk. rewrite IH, not_elem_of_cons. split; [intros; split; [congruence|done]|tauto].
+Qed.
+Lemma sfind_unique k s e : NoDup (keys s) → e ∈ s → ekey e = k → sfind k s = Some e.
+Proof.
+  unfold keys. induction s as [|x s IH]; intros Hnd Hin Hk; [by apply elem_of_nil in Hin|].
+  cbn [map] in Hnd. apply NoDup_cons in Hnd as [Hn Hnd]. cbn [sfind].
+  apply elem_of_cons in Hin as [->|Hin].
+  - rewrite Hk. by rewrite (proj2 (key_eqb_eq' k k)).
+  - destruct (key_eqb (ekey x) k) eqn:Hx; [|by apply IH].
+    apply key_eqb_eq' in Hx. exfalso. apply Hn. rewrite Hx, <- Hk. apply elem_of_list_fmap. by exists e.
+Qed.
+Lemma sfind_filter (P : entry → bool) k s : NoDup (keys s) →
+  sfind k (List.filter P s) = match sfind k s with Some e => if P e then Some e else None | None => None end.
+Proof.
+  unfold keys. induction s as [|x s IH]; intros Hnd; [done|].
+  cbn [map] in Hnd. apply NoDup_cons in Hnd as [Hn Hnd]. cbn [List.filter sfind].
+  destruct (key_eqb (ekey x) k) eqn:Hk.
+  - destruct (P x); cbn [sfind]; [by rewrite Hk|].
+    rewrite IH by done. apply key_eqb_eq' in Hk.
+    assert (sfind k s = None) as ->; [|done]. apply sfind_notin. by rewrite <- Hk.
+  - destruct (P x); cbn [sfind]; rewrite ?Hk; by apply IH.
+Qed.
+Lemma keys_filter_sub (P : entry → bool) s k : k ∈ keys (List.filter P s) → k ∈ keys s.
+Proof.
+  unfold keys. intros (e & -> & He)%elem_of_list_fmap. apply elem_of_list_In, filter_In in He as [He _].
+  apply elem_of_list_fmap. exists e. split; [done|]. by apply elem_of_list_In.
+Qed.
+Lemma NoDup_keys_filter (P : entry → bool) s : NoDup (keys s) → NoDup (keys (List.filter P s)).
+Proof.
+  unfold keys. induction s as [|x s IH]; cbn; [done|]. intros [Hn Hnd]%NoDup_cons.
+  destruct (P x); [|by apply IH]. cbn. apply NoDup_cons. split; [|by apply IH].
+  intros Hin. apply Hn. by apply (keys_filter_sub P).
+Qed.
+
+(** the specification keeps keys unique *)
+Lemma spec_step_nodup s o : NoDup (keys s) → NoDup (keys (spec_step s o).1).
+Proof.
+  intros Hnd. destruct o as [pfx mid p d r|pfx mid ty acker|now]; cbn [spec_step].
+  - destruct (expected p); [|done]. destruct (mid =? 0); [done|].
+    destruct (sfind (pfx, mid) s) eqn:Hs; [done|]. cbn [fst]. unfold keys. rewrite map_app.
+    apply NoDup_app. split; [done|]. split; [|cbn; apply NoDup_singleton].
+    intros k Hk Hk'. cbn in Hk'. apply elem_of_list_singleton in Hk'. subst k. by apply sfind_notin in Hs.
+  - destruct acker; cbn [negb]; [|done]. destruct (sfind (pfx, mid) s); [|done].
+    destruct (eexpect e =? ty); [|done]. by apply NoDup_keys_filter.
+  - by apply NoDup_keys_filter.
+Qed.
+
+(** ** the state machine of one key: INDEPENDENCE OF THE OTHERS *)
+Definition touches (k : key) (o : qop) : bool :=
+  match o with QInsert p m _ _ _ | QAck p m _ _ => key_eqb (p, m) k | QSweep _ => true end.
+
+(* what one operation does to the entry of key [k], given only that entry *)
+Definition step1 (k : key) (e : option entry) (o : qop) : option entry :=
+  match o with
+  | QInsert p m pk d r =>
+    if key_eqb (p, m) k then
+      match e, expected pk with
+      | None, Some ty => if m =? 0 then None else Some (Entry (p, m) r ty d)
+      | _, _ => e
+      end
+    else e
+  | QAck p m ty acker =>
+    if key_eqb (p, m) k && acker then
+      match e with Some x => if eexpect x =? ty then None else e | None => None end
+    else e
+  | QSweep now => match e with Some x => if due now x then None else e | None => None end
+  end.
+(* the callback one operation runs for the entry of key [k], given only that entry *)
+Definition out1 (k : key) (e : option entry) (o : qop) : option (N * bool) :=
+  match e, o with
+  | Some x, QAck p m ty acker => if key_eqb (p, m) k && acker && (eexpect x =? ty) then Some (ereg x, false) else None
+  | Some x, QSweep now => if due now x then Some (ereg x, true) else None
+  | _, _ => None
+  end.
+
+Lemma sremove_find k k' s : NoDup (keys s) → sfind k (sremove k' s) = if key_eqb k' k then None else sfind k s.
+Proof.
+  intros Hnd. unfold sremove. rewrite sfind_filter by done.
+  destruct (sfind k s) as [e|] eqn:Hs; [|by destruct (key_eqb k' k)].
+  apply sfind_In in Hs as [_ <-].
+  destruct (key_eqb (ekey e) k') eqn:H1, (key_eqb k' (ekey e)) eqn:H2; cbn [negb]; try done.
+  - apply key_eqb_eq' in H1. apply key_eqb_neq' in H2. congruence.
+  - apply key_eqb_neq' in H1. apply key_eqb_eq' in H2. congruence.
+Qed.
+
+Theorem step_key k s o : NoDup (keys s) → sfind k (spec_step s o).1 = step1 k (sfind k s) o.
+Proof.
+  intros Hnd. destruct o as [pfx mid p d r|pfx mid ty acker|now]; cbn [spec_step step1].
+  - destruct (expected p) as [ty|] eqn:Hp.
+    2:{ cbn [fst]. destruct (key_eqb (pfx, mid) k); [|done]. by destruct (sfind k s). }
+    destruct (Z.eqb_spec mid 0) as [->|Hmid]; cbn [fst].
+    { destruct (key_eqb (pfx, 0) k); [|done]. by destruct (sfind k s). }
+    destruct (key_eqb (pfx, mid) k) eqn:Hk.
+    + apply key_eqb_eq' in Hk. subst k. destruct (sfind (pfx, mid) s) eqn:Hs; cbn [fst]; [done|].
+      rewrite sfind_app, Hs. cbn. by rewrite (proj2 (key_eqb_eq' _ _) eq_refl).
+    + destruct (sfind (pfx, mid) s) eqn:Hs; cbn [fst]; [done|]. rewrite sfind_app.
+      destruct (sfind k s); [done|]. cbn. by rewrite Hk.
+  - destruct acker; cbn [negb andb]; [|by rewrite andb_false_r].
+    rewrite andb_true_r. destruct (sfind (pfx, mid) s) as [e|] eqn:Hs; cbn [fst].
+    + destruct (eexpect e =? ty) eqn:Hty; cbn [fst].
+      * rewrite sremove_find by done. destruct (key_eqb (pfx, mid) k) eqn:Hk; [|done].
+        apply key_eqb_eq' in Hk. subst k. by rewrite Hs, Hty.
+      * destruct (key_eqb (pfx, mid) k) eqn:Hk; [|done]. apply key_eqb_eq' in Hk. subst k. by rewrite Hs, Hty.
+    + destruct (key_eqb (pfx, mid) k) eqn:Hk; [|done]. apply key_eqb_eq' in Hk. subst k. by rewrite Hs.
+  - cbn [fst]. rewrite sfind_filter by done. destruct (sfind k s) as [e|]; [|done]. by destruct (due now e).
+Qed.
+
+(** the callbacks an operation runs are exactly those the per-key machines dictate *)
+Lemma dl_insert_ins e l : dl_insert e l = ins edl e l.
+Proof. induction l as [|x l IH]; cbn; [done|]. by rewrite IH. Qed.
+Lemma dl_sort_isort l : dl_sort l = isort edl l.
+Proof.
+  unfold dl_sort, isort. generalize (@nil entry). induction l as [|x l IH]; intros acc; cbn; [done|].
+  by rewrite dl_insert_ins, IH.
+Qed.
+Lemma in_dl_sort e l : e ∈ dl_sort l ↔ e ∈ l.
+Proof. by rewrite dl_sort_isort, isort_perm. Qed.
+
+Theorem out_key_fires k s o e b : sfind k s = Some e →
+  out1 k (Some e) o = Some (ereg e, b) → (ereg e, b) ∈ (spec_step s o).2.2.
+Proof.
+  intros Hs Ho. destruct (sfind_In _ _ _ Hs) as [Hin Hk].
+  destruct o as [pfx mid p d r|pfx mid ty acker|now]; cbn [out1] in Ho; [done| |].
+  - destruct (key_eqb (pfx, mid) k) eqn:Hpk; [|done]. destruct acker; [|done]. cbn [andb] in Ho.
+    destruct (eexpect e =? ty) eqn:Hty; [|done]. injection Ho as <-. apply key_eqb_eq' in Hpk. subst k.
+    cbn [spec_step negb]. rewrite Hs, Hty. cbn. left.
+  - destruct (due now e) eqn:Hd; [|done]. injection Ho as <-. cbn [spec_step snd].
+    apply elem_of_list_fmap. exists e. split; [done|]. apply in_dl_sort. apply elem_of_list_In, filter_In.
+    split; [by apply elem_of_list_In|done].
+Qed.
+Theorem out_key_only s o r b : (r, b) ∈ (spec_step s o).2.2 →
+  ∃ e, e ∈ s ∧ ereg e = r ∧ out1 (ekey e) (Some e) o = Some (r, b).
+Proof.
+  destruct o as [pfx mid p d r'|pfx mid ty acker|now]; cbn [spec_step].
+  - destruct (expected p); [|by intros ?%elem_of_nil]. destruct (mid =? 0); [by intros ?%elem_of_nil|].
+    destruct (sfind (pfx, mid) s); by intros ?%elem_of_nil.
+  - destruct acker; cbn [negb]; [|by intros ?%elem_of_nil].
+    destruct (sfind (pfx, mid) s) as [e|] eqn:Hs; [|by intros ?%elem_of_nil].
+    destruct (eexpect e =? ty) eqn:Hty; [|by intros ?%elem_of_nil]. cbn [snd].
+    intros [= -> ->]%elem_of_list_singleton. destruct (sfind_In _ _ _ Hs) as [Hin Hk].
+    exists e. split; [done|]. split; [done|]. cbn [out1]. rewrite Hk, (proj2 (key_eqb_eq' _ _) eq_refl), Hty. done.
+  - cbn [snd]. intros (e & [= -> ->] & He)%elem_of_list_fmap. apply (proj1 (in_dl_sort _ _)) in He.
+    apply elem_of_list_In, filter_In in He as [He Hd]. exists e. split; [by apply elem_of_list_In|].
+    split; [done|]. cbn [out1]. by rewrite Hd.
+Qed.
+
+(** ** ISOLATION over histories *)
+Definition restrict (k : key) (os : list qop) : list qop := List.filter (touches k) os.
+
+Lemma step1_untouched k e o : touches k o = false → step1 k e o = e.
+Proof. destruct o; cbn [touches step1]; intros H; rewrite ?H; done. Qed.
+
+Lemma spec_run_nodup os : ∀ s, NoDup (keys s) → NoDup (keys (spec_run s os).1).
+Proof. induction os as [|o os IH]; intros s H; cbn [spec_run fst]; [done|]. apply IH. by apply spec_step_nodup. Qed.
+
+(* the entry of [k] evolves as a function of itself and the operations only *)
+Lemma agree_on_key k os : ∀ s s', NoDup (keys s) → NoDup (keys s') → sfind k s = sfind k s' →
+  sfind k (spec_run s os).1 = sfind k (spec_run s' os).1.
+Proof.
+  induction os as [|o os IH]; intros s s' H H' Heq; cbn [spec_run fst]; [done|].
+  apply IH; [by apply spec_step_nodup|by apply spec_step_nodup|]. by rewrite !step_key, Heq.
+Qed.
+
+Theorem isolation_state k os : ∀ s, NoDup (keys s) →
+  sfind k (spec_run s os).1 = sfind k (spec_run s (restrict k os)).1.
+Proof.
+  induction os as [|o os IH]; intros s Hnd; [done|]. cbn [restrict List.filter].
+  destruct (touches k o) eqn:Ht; cbn [spec_run fst].
+  - apply IH. by apply spec_step_nodup.
+  - rewrite IH by (by apply spec_step_nodup). apply agree_on_key; [by apply spec_step_nodup|done|].
+    rewrite step_key by done. by apply step1_untouched.
+Qed.
+
+(* the outcomes of key [k] along a history: one slot per operation that touches [k] *)
+Fixpoint ktrace (k : key) (s : sstate) (os : list qop) : list (option (N * bool)) :=
+  match os with
+  | [] => []
+  | o :: os' =>
+    let rest := ktrace k (spec_step s o).1 os' in
+    if touches k o then out1 k (sfind k s) o :: rest else rest
+  end.
+Lemma ktrace_agree k os : ∀ s s', NoDup (keys s) → NoDup (keys s') → sfind k s = sfind k s' →
+  ktrace k s os = ktrace k s' os.
+Proof.
+  induction os as [|o os IH]; intros s s' H H' Heq; cbn [ktrace]; [done|].
+  rewrite (IH (spec_step s o).1 (spec_step s' o).1); [by rewrite Heq|by apply spec_step_nodup|by apply spec_step_nodup|].
+  by rewrite !step_key, Heq.
+Qed.
+Theorem isolation_outcomes k os : ∀ s, NoDup (keys s) → ktrace k s os = ktrace k s (restrict k os).
+Proof.
+  induction os as [|o os IH]; intros s Hnd; [done|]. cbn [restrict List.filter ktrace].
+  destruct (touches k o) eqn:Ht; cbn [ktrace]; rewrite ?Ht.
+  - f_equal. apply IH. by apply spec_step_nodup.
+  - rewrite IH by (by apply spec_step_nodup). apply ktrace_agree; [by apply spec_step_nodup|done|].
+    rewrite step_key by done. by apply step1_untouched.
+Qed.
+
+(** ** AT MOST ONE OUTCOME per registration *)
+Definition op_reg (o : qop) : list N := match o with QInsert _ _ _ _ r => [r] | _ => [] end.
+Definition fired1 (o : qout) : list N := map fst (snd o).
+Definition fired (outs : list qout) : list N := flat_map fired1 outs.
+
+Lemma submseteq_NoDup {A} (l k : list A) : l ⊆+ k → NoDup k → NoDup l.
+Proof.
+  induction 1 as [|x l1 l2 Hsub IH|x y l|x l1 l2 Hsub IH|l1 l2 l3 _ IH1 _ IH2]; intros Hk.
+  - done.
+  - apply NoDup_cons in Hk as [Hn Hk]. apply NoDup_cons. split; [|by apply IH].
+    intros Hin. apply Hn. by eapply elem_of_submseteq.
+  - by rewrite (Permutation_swap x y l).
+  - apply NoDup_cons in Hk as [_ Hk]. by apply IH.
+  - by apply IH1, IH2.
+Qed.
+Lemma filter_partition {A} (P : A → bool) l : l ≡ₚ List.filter P l ++ List.filter (λ x, negb (P x)) l.
+Proof.
+  induction l as [|x l IH]; cbn; [done|]. destruct (P x); cbn; [by rewrite <- IH|].
+  rewrite <- Permutation_middle. by rewrite <- IH.
+Qed.
+Lemma sremove_perm k s e : NoDup (keys s) → sfind k s = Some e → s ≡ₚ e :: sremove k s.
+Proof.
+  unfold keys, sremove. induction s as [|x s IH]; cbn [sfind map List.filter]; [done|]. intros [Hn Hnd]%NoDup_cons.
+  destruct (key_eqb (ekey x) k) eqn:Hk; cbn [negb].
+  - intros [= ->]. constructor. symmetry. rewrite <- (app_nil_r (List.filter _ s)).
+    assert (List.filter (λ e0, negb (negb (key_eqb (ekey e0) k))) s = []) as Hnone.
+    { apply key_eqb_eq' in Hk. subst k. clear -Hn. induction s as [|y s IH]; cbn; [done|].
+      destruct (key_eqb (ekey y) (ekey e)) eqn:Hy; cbn.
+      - apply key_eqb_eq' in Hy. exfalso. apply Hn. rewrite <- Hy. cbn. left.
+      - apply IH. intros H. apply Hn. cbn. by right. }
+    rewrite <- Hnone. symmetry. apply (filter_partition (λ e0, negb (key_eqb (ekey e0) k))).
+  - intros Hs. rewrite (IH Hnd Hs) at 1. apply Permutation_swap.
+Qed.
+
+Lemma step_regs s o : NoDup (keys s) →
+  regs (spec_step s o).1 ++ fired1 (spec_step s o).2 ⊆+ regs s ++ op_reg o.
+Proof.
+  intros Hnd. unfold fired1, regs. destruct o as [pfx mid p d r|pfx mid ty acker|now]; cbn [spec_step op_reg].
+  - assert (Hweak : map ereg s ++ [] ⊆+ map ereg s ++ [r]) by (apply submseteq_app; [done|apply submseteq_nil_l]).
+    destruct (expected p); [|exact Hweak]. destruct (mid =? 0); [exact Hweak|].
+    destruct (sfind (pfx, mid) s); [exact Hweak|]. cbn [fst snd map]. by rewrite map_app, app_nil_r.
+  - rewrite app_nil_r. destruct acker; cbn [negb]; [|by rewrite app_nil_r].
+    destruct (sfind (pfx, mid) s) as [e|] eqn:Hs; [|by rewrite app_nil_r].
+    destruct (eexpect e =? ty); [|by rewrite app_nil_r]. cbn [fst snd map].
+    rewrite (sremove_perm _ _ _ Hnd Hs) at 2. cbn [map]. by rewrite Permutation_app_comm.
+  - rewrite app_nil_r. cbn [fst snd]. rewrite map_map. cbn [fst].
+    rewrite (filter_partition (due now) s) at 3. rewrite map_app.
+    rewrite (Permutation_app_comm (map ereg (List.filter (due now) s))).
+    apply submseteq_app; [done|]. apply Permutation_submseteq. apply Permutation_map.
+    by rewrite dl_sort_isort, isort_perm.
+Qed.
+
+Theorem fired_once os : ∀ s, NoDup (keys s) → NoDup (regs s ++ flat_map op_reg os) →
+  NoDup (fired (spec_run s os).2) ∧ ∀ r, r ∈ fired (spec_run s os).2 → r ∈ regs s ++ flat_map op_reg os.
+Proof.
+  induction os as [|o os IH]; intros s Hk Hnd; cbn [spec_run snd fired flat_map].
+  { split; [apply NoDup_nil_2|]. intros r Hr. by apply elem_of_nil in Hr. }
+  pose proof (step_regs s o Hk) as Hsub. cbn [flat_map] in Hnd.
+  set (s' := (spec_step s o).1) in *. set (F := fired1 (spec_step s o).2) in *.
+  assert (Hnd' : NoDup ((regs s' ++ F) ++ flat_map op_reg os)).
+  { eapply submseteq_NoDup; [|exact Hnd]. rewrite (app_assoc (regs s)). by apply submseteq_app. }
+  rewrite <- app_assoc in Hnd'. apply NoDup_app in Hnd' as (Hn1 & Hdisj & Hn2).
+  apply NoDup_app in Hn2 as (HnF & HdisjF & HnR).
+  destruct (IH s') as [IH1 IH2]; [by apply spec_step_nodup| |].
+  { apply NoDup_app. split; [done|]. split; [|done]. intros x Hx Hx'. eapply Hdisj; [exact Hx|]. apply elem_of_app. by right. }
+  split.
+  - apply NoDup_app. split; [done|]. split; [|done]. intros x Hx Hx'. apply IH2 in Hx'.
+    apply elem_of_app in Hx' as [Hx'|Hx'].
+    + eapply Hdisj; [exact Hx'|]. apply elem_of_app. by left.
+    + by eapply HdisjF.
+  - intros r [Hr|Hr]%elem_of_app.
+    + assert (r ∈ regs s ++ op_reg o).
+      { eapply elem_of_submseteq; [|exact Hsub]. apply elem_of_app. by right. }
+      rewrite (app_assoc (regs s)). apply elem_of_app. by left.
+    + apply IH2 in Hr. apply elem_of_app in Hr as [Hr|Hr].
+      * assert (r ∈ regs s ++ op_reg o).
+        { eapply elem_of_submseteq; [|exact Hsub]. apply elem_of_app. by left. }
+        rewrite (app_assoc (regs s)). apply elem_of_app. by left.
+      * rewrite (app_assoc (regs s)). apply elem_of_app. by right.
+Qed.
+
+(** a duplicate registration is rejected and leaves the table as it was *)
+Theorem duplicate_step s pfx mid p d r e : sfind (pfx, mid) s = Some e →
+  spec_step s (QInsert pfx mid p d r) = (s, ((spec_step s (QInsert pfx mid p d r)).2.1, [])) ∧
+  (mid ≠ 0 → expected p ≠ None → (spec_step s (QInsert pfx mid p d r)).2.1 = RDup).
+Proof.
+  intros Hs. cbn [spec_step]. destruct (expected p); [|by split].
+  destruct (Z.eqb_spec mid 0); [by split|]. rewrite Hs. by split.
 Qed.
